@@ -352,6 +352,11 @@ func (g *cityGen) genInvalidAdd() op {
 			opposite := ring.Path[(rc.Draw(len(ring.Path)-1)+2)%(len(ring.Path)-1)].Point
 			if old := g.specs[pointID(corner)]; old != nil && corner != opposite {
 				s := old.clone()
+				if first := g.specs[pointID(ring.Path[0].Point)]; first != nil && corner != ring.Path[0].Point && rc.Pct(30) {
+					// exactly onto the ring's first vertex: a degenerate edge
+					s.Lat, s.Lng = first.Lat, first.Lng
+					return op{Kind: "add", Spec: s, Invalid: "point moved exactly onto the first vertex of a ring through it"}
+				}
 				olat, olng := gridE7(opposite, 0)
 				clat, clng := gridE7(corner, 0)
 				s.Lat = olat + (olat-clat)/2 + 333
